@@ -25,6 +25,10 @@ func main() {
 			enumBoundaryCase(cr, s)
 			continue
 		}
+		if r.Chance(1, 12) {
+			aggCase(cr, s)
+			continue
+		}
 		switch k := r.Intn(22); {
 		case k < 8:
 			filterCase(cr, s)
